@@ -45,6 +45,8 @@ type Op struct {
 type Script struct {
 	Cfg Cfg  `json:"cfg"`
 	Ops []Op `json:"ops"`
+	// Share: the calls take their options as views of one backing array (options_arena.go)
+	Share bool `json:"share,omitempty"`
 }
 
 func (c Cfg) line() string {
@@ -118,7 +120,8 @@ func (o Op) has(k string) bool { _, ok := o.opt(k); return ok }
 
 const fieldA, fieldS, fieldC, fieldF, fieldR = "default_int32", "default_string", "optional_int32", "default_foreign_message", "repeated_int32"
 
-var letterPath = map[string]string{"a": fieldA, "s": fieldS, "c": fieldC, "f": fieldF, "r": fieldR, "x": "no_such_field"}
+var letterPath = map[string]string{"a": fieldA, "s": fieldS, "c": fieldC, "f": fieldF, "r": fieldR, "x": "no_such_field",
+	"fc": fieldF + ".c", "fd": fieldF + ".d"}
 
 func parseMsg(s string) *T {
 	p := strings.Split(s, "/")
